@@ -163,6 +163,60 @@ func runC14Name(nameIdx int) (string, []explore.Violation) {
 	return fmt.Sprintf("accepted %d of %d", accepted, len(c14Types)*len(c14Lists)), vs
 }
 
+// runC14SharedOptions: one options value reused for several Open/Create calls must not carry anything from
+// one database to the next.
+func runC14SharedOptions() (string, []explore.Violation) {
+	w, err := newAddrWorld()
+	if err != nil {
+		return "harness: " + err.Error(), nil
+	}
+	defer w.close()
+	var vs []explore.Violation
+	n := 0
+	for _, typ := range c14Types {
+		lists := []string{"A", "B,A", "*", "self"}
+		var addrs []string
+		want := map[string][]string{}
+		for i, l := range lists {
+			ac, wl := w.params(l, 0)
+			s, err := w.P[0].DB.Create(bg, fmt.Sprintf("shared-%s-%d", typ, i), typ, &orbitdb.CreateDBOptions{AccessController: ac, Replicate: boolp(false)})
+			if err != nil {
+				return "harness: " + err.Error(), nil
+			}
+			addrs = append(addrs, s.Address().String())
+			want[s.Address().String()] = wl
+			_ = s.Close()
+		}
+		// every order of two databases through ONE options value, on another peer
+		for i := range addrs {
+			for j := range addrs {
+				if i == j {
+					continue
+				}
+				shared := &orbitdb.CreateDBOptions{Replicate: boolp(false)}
+				for _, a := range []string{addrs[i], addrs[j]} {
+					st, err := w.P[1].DB.Open(bg, a, shared)
+					if err != nil {
+						vs = append(vs, explore.Violation{Signature: "open-with-reused-options-failed", Detail: err.Error(), History: []string{"shared options"}})
+						continue
+					}
+					n++
+					got, _ := st.AccessController().GetAuthorizedByRole("write")
+					g, wl := append([]string{}, got...), append([]string{}, want[a]...)
+					sort.Strings(g)
+					sort.Strings(wl)
+					if st.Type() != typ || strings.Join(g, ",") != strings.Join(wl, ",") {
+						vs = append(vs, explore.Violation{Signature: "reused-options-leak-between-databases",
+							Detail: fmt.Sprintf("type %s: opening list #%d after list #%d through one options value: type=%s, %d writers, expected %d", typ, j, i, st.Type(), len(got), len(want[a])), History: []string{"shared options"}})
+					}
+					_ = st.Close()
+				}
+			}
+		}
+	}
+	return fmt.Sprintf("opens=%d", n), vs
+}
+
 // runC14Uniqueness: pairwise different inputs give different addresses (over the whole enumerated set).
 func runC14Uniqueness() (string, []explore.Violation) {
 	w, err := newAddrWorld()
@@ -205,7 +259,7 @@ func runC14Uniqueness() (string, []explore.Violation) {
 func init() {
 	explore.Register(&explore.CheckDef{
 		ID: "C14", Level: "exploration",
-		Rule: "full cross product: 31 names (ascii, case, spaces, nested, empty, dot and parent-directory segments, unicode, control characters, names that are or contain the manifest address of another database, 300 characters) x 3 registered types x 6 write lists (none, creator, one id, two ids in both orders, wildcard) on three peers with different identities; restricted to inputs DetermineAddress/Create accept. Oracle: same inputs give the same address on every peer; pairwise different inputs give different addresses (all pairs of the enumerated set) and never the root of an unrelated database; the printed address parses back to the same root and path; Create returns the determined address; Open on another peer yields the recorded type and the given write list; local-only open of an unknown database and Create over an existing one are refused, Create with overwrite succeeds. Non-trivial = accepted inputs other than the plain name.",
+		Rule: "full cross product: 31 names (ascii, case, spaces, nested, empty, dot and parent-directory segments, unicode, control characters, names that are or contain the manifest address of another database, 300 characters) x 3 registered types x 6 write lists (none, creator, one id, two ids in both orders, wildcard) on three peers with different identities; restricted to inputs DetermineAddress/Create accept. Oracle: same inputs give the same address on every peer; pairwise different inputs give different addresses (all pairs of the enumerated set) and never the root of an unrelated database; the printed address parses back to the same root and path; Create returns the determined address; Open on another peer yields the recorded type and the given write list; local-only open of an unknown database and Create over an existing one are refused, Create with overwrite succeeds; every ordered pair of 4 databases with different write lists opened through one reused options value keeps its own type and list. Non-trivial = accepted inputs other than the plain name.",
 		Units: func(tier string) []explore.Unit { return explore.ChunkUnits("c14", 16) },
 		Budget: func(tier string) float64 { return 400 },
 		RunUnit: func(c *explore.Ctx) {
@@ -216,6 +270,7 @@ func init() {
 				cases = append(cases, explore.Case{ID: fmt.Sprintf("name#%d", k), Nontrivial: k > 0, Run: func() (string, []explore.Violation) { return runC14Name(k) }})
 			}
 			cases = append(cases, explore.Case{ID: "uniqueness over all inputs", Nontrivial: true, Run: runC14Uniqueness})
+			cases = append(cases, explore.Case{ID: "one options value reused across databases", Nontrivial: true, Run: runC14SharedOptions})
 			explore.RunCases(c, "C14", cases, i, n)
 		},
 		Assumptions: []string{
